@@ -10,6 +10,7 @@ import MitmVerif.Lemmas.C38_Old
 import MitmVerif.Lemmas.C38_State
 import MitmVerif.Model.C38_Tuple
 import MitmVerif.Lemmas.C38_Bytes
+import MitmVerif.Model.C38_Migrate
 namespace MitmVerif.Props.C38
 open MitmVerif.C38 MitmVerif.Gen.C38
 
@@ -850,6 +851,93 @@ example :
     (((((conv_013_014 d).bind conv_014_015).bind conv_015_016).bind conv_016_017).bind
       (fun d' => (bget d' (s "response")).bind asDict)).bind (fun r => bget r (s "reason")) |>.map enc
       = some (enc (b "OK")) := by decide +kernel
+
+
+/-! #### `migrate_flow` as a whole: the loop with every converter dispatched to its transcription -/
+
+/-- a key of the regenerated converter graph as `migrate_flow` computes it from the stored version -/
+def keyOfVer : Ver → VKey
+  | .tup a b => .tup a b
+  | .int n => .int n
+
+/-- whether the composed model has a transcription for a key (does not depend on the state or the record) -/
+def hasConv (k : VKey) : Bool :=
+  match k with
+  | .tup a b => decide (0 ≤ a) && decide (0 ≤ b) &&
+      ((convTuple a.toNat b.toNat).isSome || (decide (a = 0) && (convBytes b.toNat).isSome))
+  | .int n => decide (n = 4) || decide (n = 11) || (decide (0 ≤ n) && ((conv n.toNat).isSome || (convOld n.toNat).isSome))
+  | .other => false
+
+theorem convAny_isSome_iff (fresh : Nat → Value) (fadd : Bytes → Option Bytes) (st : MigSt) (k : VKey) (d : Dict) :
+    (convAny fresh fadd st k d).isSome = hasConv k := by
+  cases k with
+  | other => rfl
+  | tup a b =>
+    simp only [convAny, hasConv]
+    by_cases ha : a < 0
+    · simp [ha, Int.not_le.mpr ha]
+    · by_cases hb : b < 0
+      · simp [hb, Int.not_le.mpr hb]
+      · have ha' : 0 ≤ a := by omega
+        have hb' : 0 ≤ b := by omega
+        simp only [ha, hb, or_self, if_false, ha', hb', decide_true, Bool.true_and]
+        cases h1 : convTuple a.toNat b.toNat with
+        | some f => simp
+        | none =>
+          by_cases h0 : a = 0
+          · simp only [Option.orElse_none, h0, if_true, Option.isSome_none, Bool.false_or, decide_true, Bool.true_and]
+            cases convBytes b.toNat <;> rfl
+          · simp [h0]
+  | int n =>
+    simp only [convAny, hasConv]
+    by_cases h4 : n = 4
+    · simp [h4]
+    · by_cases h11 : n = 11
+      · simp [h11]
+      · by_cases h13 : n = 13
+        · subst h13; simp [conv]
+        by_cases hn : n < 0
+        · simp [h4, h11, h13, hn, Int.not_le.mpr hn]
+        · have hn' : 0 ≤ n := by omega
+          simp only [h4, h11, h13, hn, if_false, decide_false, Bool.false_or, hn', decide_true, Bool.true_and]
+          cases h1 : conv n.toNat with
+          | some f => simp
+          | none => simp only [Option.orElse_none, Option.isSome_none, Bool.false_or]; cases convOld n.toNat <;> rfl
+
+/-- **every_registered_converter_is_modelled.** Every key of the converter graph REGENERATED from compat.py on this run has a
+    Lean transcription in the composed model — a converter added to `compat.converters` without one breaks this proof. -/
+theorem every_registered_converter_is_modelled : ∀ e ∈ graph, hasConv (keyOfVer e.1) = true := by decide +kernel
+
+/-- … and conversely the composed model dispatches on nothing the source does not register (keys up to 40 / tuples up to 5.30). -/
+theorem no_extra_converter :
+    (∀ n : Fin 41, hasConv (.int n.val) = (lookup graph (.int n.val)).isSome) ∧
+    (∀ a : Fin 6, ∀ b : Fin 31, hasConv (.tup a.val b.val) = (lookup graph (.tup a.val b.val)).isSome) := by
+  decide +kernel
+
+/-- **migrate_ends_at_current.** Whenever the composed `migrate_flow` returns, the record carries the current version. -/
+theorem migrate_ends_at_current (fresh : Nat → Value) (fadd : Bytes → Option Bytes) (cur : Int) (f : Nat) (st st' : MigSt) (prev : Option VKey)
+    (d d' : Dict) (h : migrateFlow fresh fadd cur f st prev d = some (st', d')) : versionKey d' = some (.int cur) := by
+  induction f generalizing st prev d with
+  | zero => simp [migrateFlow] at h
+  | succ f ih =>
+    unfold migrateFlow at h
+    split at h
+    · cases h
+    · next k hk =>
+      split at h
+      · next hcur => simp only [Option.some.injEq, Prod.mk.injEq] at h; obtain ⟨_, rfl⟩ := h; rw [hk, hcur]
+      · split at h
+        · cases h
+        · split at h
+          · cases h
+          · cases h
+          · exact ih _ _ _ h
+
+/-- **migrate_current_unchanged.** A record already at the current version is returned as it is, tables untouched. -/
+theorem migrate_current_unchanged (fresh : Nat → Value) (fadd : Bytes → Option Bytes) (cur : Int) (f : Nat) (st : MigSt) (prev : Option VKey) (d : Dict)
+    (h : versionKey d = some (.int cur)) : migrateFlow fresh fadd cur (f + 1) st prev d = some (st, d) := by
+  unfold migrateFlow
+  simp [h]
 
 /-! #### the whole modelled chain 12 → 21 -/
 
